@@ -406,6 +406,10 @@ def copyval(v, memo):
         if a is v.a and b is v.b:
             return v
         return Phi(v.cond, a, b)
+    if isinstance(v, Bound) and isinstance(v.recv, (Seq, DictV)):
+        # `append = out.append`: the bound method follows its list into the fork
+        r = copyval(v.recv, memo)
+        return v if r is v.recv else Bound(r, v.name)
     return v
 
 
@@ -464,6 +468,7 @@ class Evaluator:
         self.field_cls = field_cls or {}
         self.stack = []
         self.on_call = on_call  # hook(callee_value, args, kwargs, node, st) -> value or None
+        self.on_assert = None  # hook(assert node, value of its test, st)
         self.inline_filter = inline_filter
         self._modcache = {}
         self.fresh = 0
@@ -543,6 +548,10 @@ class Evaluator:
 
     def _known(self, t, depth=0):
         """Truth value of condition tree t from the facts assumed on the current path, or None."""
+        if isinstance(t, bool):
+            return t
+        if isinstance(t, Const) and isinstance(t.v, bool):
+            return t.v
         if not isinstance(t, tuple) or depth > 6:
             return None
         k = ckey(t)
@@ -572,13 +581,21 @@ class Evaluator:
             c0 = self._known(t[1], depth + 1)
             if c0 is not None:
                 return self._known(t[2] if c0 else t[3], depth + 1)
+            if depth < 3:
+                # each side under the condition that selects it
+                with self.assuming(Cond(t[1]), True):
+                    a = self._known(t[2], depth + 1)
+                with self.assuming(Cond(t[1]), False):
+                    b = self._known(t[3], depth + 1)
+                if a is not None and a == b:
+                    return a
         return None
 
     def _fold_assumed(self, c):
         if not isinstance(c, Cond):
             return c
         t = c.tree
-        if self.facts:
+        if self.facts or (isinstance(t, tuple) and t and t[0] == "phi"):
             kv = self._known(t)
             if kv is not None:
                 return Const(kv)
@@ -1265,6 +1282,7 @@ class Evaluator:
             argl = [args]
         out = []
         ai = 0
+        named = False
         import re
 
         for p in parts:
@@ -1281,6 +1299,16 @@ class Evaluator:
                     out.append(("lit", "%"))
                     continue
                 spec = "%" + (m.group(2) or "") + (m.group(3) or "") + (("." + m.group(4)) if m.group(4) is not None else "") + m.group(5)
+                if m.group(1) is not None:
+                    # %(name)s: the operand is a mapping
+                    if isinstance(args, DictV) and m.group(1) in args.items:
+                        out.append(("hole", args.items[m.group(1)], spec))
+                    elif isinstance(args, DictV) and args.fallback is None:
+                        out.append(("hole", Opaque("<missing format key %s>" % m.group(1)), spec))
+                    else:
+                        out.append(("hole", Opaque("%s[%r]" % (key(args), m.group(1))), spec))
+                    named = True
+                    continue
                 if ai < len(argl):
                     out.append(("hole", argl[ai], spec))
                 else:
@@ -1290,7 +1318,7 @@ class Evaluator:
                 out.append(("lit", s[pos:]))
         t = self._mk_template(out)
         if isinstance(t, Template):
-            t.nargs = (ai, len(argl))
+            t.nargs = (ai, len(argl)) if not named else (0, 0)
         return t
 
     def e_Attribute(self, n, st):
@@ -1356,7 +1384,23 @@ class Evaluator:
                 if isinstance(stn, ast.Assign):
                     for t in stn.targets:
                         if isinstance(t, ast.Name) and t.id == attr:
-                            st0 = State(Env({}, self.module_env(c.module.name), c.module.name, None))
+                            # the class body is a scope of its own: functions defined in it are plain functions there,
+                            # earlier class-level names are visible
+                            scope = {}
+                            for prev in c.node.body:
+                                if prev is stn:
+                                    break
+                                if isinstance(prev, (ast.FunctionDef, ast.AsyncFunctionDef)):
+                                    g = self.P.func_of_node.get(prev)
+                                    if g is not None:
+                                        scope[prev.name] = Closure(g, None)
+                                elif isinstance(prev, ast.Assign) and len(prev.targets) == 1 and isinstance(prev.targets[0], ast.Name) and prev.targets[0].id != attr:
+                                    used = {n.id for n in ast.walk(stn.value) if isinstance(n, ast.Name)}
+                                    if prev.targets[0].id in used:
+                                        v = self._class_attr(c, prev.targets[0].id)
+                                        if v is not None:
+                                            scope[prev.targets[0].id] = v
+                            st0 = State(Env(scope, self.module_env(c.module.name), c.module.name, None))
                             return self.expr(stn.value, st0)
         return None
 
@@ -1704,6 +1748,18 @@ class Evaluator:
     def call_closure(self, c, args, kwargs, st, node=None):
         f = c.func
         if self.inline_filter is not None and not self.inline_filter(f):
+            if kwargs:
+                # name the call by its arguments in parameter order, however they were passed
+                ps = list(f.params[1:]) if (c.selfv is not None and not f.is_staticmethod and f.params) else list(f.params)
+                full = list(args)
+                rest = dict(kwargs)
+                for p_ in ps[len(full):]:
+                    if p_ in rest:
+                        full.append(rest.pop(p_))
+                    else:
+                        break
+                if not rest:
+                    args = full
             if c.selfv is not None and not isinstance(c.selfv, ClassRef):
                 return Opaque("%s.%s(%s)" % (key(c.selfv), f.name, ", ".join(key(a) for a in args)))
             return Opaque("%s(%s)" % (self.qual_alias.get(f.qual, f.qual), ", ".join(key(a) for a in args)))
@@ -1813,6 +1869,17 @@ class Evaluator:
         short = name.split(".")[-1]
         if name in ("functools.partial", "partial") and args:
             return PartialV(args[0], list(args[1:]), dict(kwargs))
+        if name.startswith("operator.") and not kwargs:
+            # the operator module's functions are the operators
+            _bin = {"add": ast.Add, "sub": ast.Sub, "mul": ast.Mult, "truediv": ast.Div, "floordiv": ast.FloorDiv, "mod": ast.Mod, "pow": ast.Pow}
+            if short in _bin and len(args) == 2:
+                return self.binop(_bin[short], args[0], args[1], node)
+            if short == "neg" and len(args) == 1:
+                return self.binop(ast.Sub, C(0), args[0], node)
+            if short == "pos" and len(args) == 1:
+                return args[0]
+            if short in ("getitem",) and len(args) == 2:
+                return self.getitem(args[0], args[1], st)
         nums = [as_num(a) for a in args]
         allnum = all(x is not None for x in nums) and not kwargs
         if name.startswith("math.") and short in MATH_UNARY and len(args) == 1 and allnum:
@@ -2404,7 +2471,12 @@ class Evaluator:
             f = self.P.func_of_node.get(s)
             st.env.assign(s.name, Closure(f, st.env) if f is not None else Opaque(s.name))
             return None
-        if isinstance(s, (ast.Pass, ast.Global, ast.Import, ast.ImportFrom, ast.Assert, ast.Delete)):
+        if isinstance(s, ast.Assert):
+            if self.on_assert is not None:
+                c = self.cond(s.test, st)
+                self.on_assert(s, c, st)
+            return None
+        if isinstance(s, (ast.Pass, ast.Global, ast.Import, ast.ImportFrom, ast.Delete)):
             return None
         if isinstance(s, ast.Nonlocal):
             st.env.nonlocals |= set(s.names)
